@@ -203,8 +203,8 @@ static void op_run(void) {
   int ncall = g_ncall;
   g_partial = 1;
   printf("{");
-  printf("\"nbody\":%d,\"ngeom\":%d,\"npair\":%d,\"nexclude\":%d,\"nflex\":%d,\"disable\":%d,\"enable\":%d,\"nmocap\":%d,",
-         nbody, ngeom, m->npair, m->nexclude, m->nflex, m->opt.disableflags, m->opt.enableflags, m->nmocap);
+  printf("\"nbody\":%d,\"ngeom\":%d,\"npair\":%d,\"nexclude\":%d,\"nflex\":%d,\"disable\":%d,\"enable\":%d,\"nmocap\":%d,\"o_margin\":%.17g,",
+         nbody, ngeom, m->npair, m->nexclude, m->nflex, m->opt.disableflags, m->opt.enableflags, m->nmocap, m->opt.o_margin);
   pi("body_weldid", m->body_weldid, nbody); pi("body_parentid", m->body_parentid, nbody);
   pi("body_dofnum", m->body_dofnum, nbody); pi("body_geomadr", m->body_geomadr, nbody);
   pi("body_geomnum", m->body_geomnum, nbody); pi("body_contype", m->body_contype, nbody);
@@ -388,7 +388,13 @@ int main(void) {
       if (d2) mj_deleteData(d2);
       if (m) mj_deleteModel(m);
       d = d2 = NULL; m = NULL;
-      m = mjb_compile(stdin, NULL, err, sizeof err);
+      // read the whole description (up to "end") first, so that a rejected description never desynchronises the protocol
+      char* desc = NULL; size_t dlen = 0; FILE* mf = open_memstream(&desc, &dlen);
+      while (fgets(line, cap, stdin)) { fputs(line, mf); if (!strncmp(line, "end", 3) && (line[3] == '\n' || line[3] == 0)) break; }
+      fclose(mf);
+      FILE* in = fmemopen(desc, dlen, "r");
+      m = mjb_compile(in, NULL, err, sizeof err);
+      fclose(in); free(desc);
       if (!m) { for (char* c = err; *c; c++) if (*c == '\n') *c = ' '; printf("error %s\n", err); }
       else {
         d = mj_makeData(m);
